@@ -10,8 +10,13 @@ Case (JSON):
     ["addN", g, via, [[s,p,o,c,kind]…]]   kind: "obj" (self when c == g, else graph c's primary object),
                                                "twin" (the other object of graph c), "ident" (bare identifier, not a Graph)
     ["iadd", g, via, src]  ["isub", g, via, src]   src = ["list", ts] | ["gen", ts] | ["ext", ts] (Graph on another store)
+                                                        | ["extsame", ts] (Graph on ANOTHER store carrying the SAME identifier
+                                                          as the receiving graph: `other == self` although they are distinct)
                                                         | ["graph", h, via_h] (graph of the same store, may be g itself)
     ["bin", op, g, via, h, via_h]        op = add | sub | mul | xor      (observed: the new graph; operands unchanged)
+    ["binx", op, g, via, ts, side]       the other operand is a same-identifier graph of another store holding ts
+                                         (side "R": g OP other, "L": other OP g); ["sbinx", op, i, ts, side] likewise
+    quad kind "xtwin" = a same-identifier Graph object of another store; via = 2 in st_* ops = such an object as context
     store API called directly on the shared `Memory` (contexts = the Graph objects of graphs 0..2):
     ["st_add", c, via, s, p, o]          store.add(triple, graph_obj)
     ["st_remove", c|None, via, s|None, p|None, o|None]     store.remove(pattern, graph_obj | None)
@@ -169,7 +174,7 @@ def gen_case(rng, tier, i):
                 elif r < 0.96:
                     ops.append(["st_remove", None, via] + pick())
                 elif r < 0.98:
-                    ops.append(["st_rmg", g, via])
+                    ops.append(["st_rmg", g, rng.choice([via, via, 2])])
                 else:
                     ops.append(["isub", g, via, ["graph", rng.choice(G), 0]])
         for k in range(nit):
@@ -181,15 +186,15 @@ def gen_case(rng, tier, i):
             g, via, r = rng.choice(G), rng.randint(0, 1), rng.random()
             if r < 0.30:
                 t = pick()
-                ops.append(["st_add", g, via] + t)
+                ops.append(["st_add", g, rng.choice([via, via, 2])] + t)
                 if rng.random() < 0.4:
                     ops.append(["st_add", rng.choice(G), rng.randint(0, 1)] + t)
             elif r < 0.42:
                 ops.append(["st_remove", None, via] + pat())
             elif r < 0.55:
-                ops.append(["st_remove", g, via] + pat())
+                ops.append(["st_remove", g, rng.choice([via, via, 2])] + pat())
             elif r < 0.60:
-                ops.append(["st_addg", g, via])
+                ops.append(["st_addg", g, rng.choice([via, via, 2])])
             elif r < 0.68:
                 ops.append(["st_rmg", g, via])
             elif r < 0.78:
@@ -199,11 +204,11 @@ def gen_case(rng, tier, i):
             elif r < 0.89:
                 ops.append(["set", g, via] + pick())
             elif r < 0.93:
-                qs = [pick() + [g if rng.random() < 0.7 else rng.choice(G), rng.choice(["obj", "twin", "ident"])]
+                qs = [pick() + [g if rng.random() < 0.7 else rng.choice(G), rng.choice(["obj", "twin", "xtwin", "ident"])]
                       for _ in range(rng.randint(0, 3))]
                 ops.append(["addN", g, via, qs])
             else:
-                kind = rng.choice(["list", "gen", "graph"])
+                kind = rng.choice(["list", "gen", "graph", "extsame"])
                 src = ["graph", rng.choice(G), rng.randint(0, 1)] if kind == "graph" else [kind, tlist(3)]
                 ops.append([rng.choice(["iadd", "isub"]), g, via, src])
     elif store == "mem":
@@ -240,14 +245,16 @@ def gen_case(rng, tier, i):
                 qs = []
                 for _ in range(rng.randint(0, 4)):
                     c = g if rng.random() < 0.7 else rng.choice(G)
-                    qs.append(pick() + [c, rng.choice(["obj", "obj", "twin", "twin", "ident"])])
+                    qs.append(pick() + [c, rng.choice(["obj", "obj", "twin", "twin", "xtwin", "ident"])])
                 ops.append(["addN", g, via, qs])
             elif r < 0.95:
-                kind = rng.choice(["list", "gen", "ext", "graph", "graph"])
+                kind = rng.choice(["list", "gen", "ext", "extsame", "extsame", "graph", "graph"])
                 src = ["graph", rng.choice(G), rng.randint(0, 1)] if kind == "graph" else [kind, tlist()]
                 ops.append([rng.choice(["iadd", "isub"]), g, via, src])
-            else:
+            elif r < 0.975:
                 ops.append(["bin", rng.choice(["add", "sub", "mul", "xor"]), g, via, rng.choice(G), rng.randint(0, 1)])
+            else:
+                ops.append(["binx", rng.choice(["add", "sub", "mul", "xor"]), g, via, tlist(), rng.choice("LR")])
         if with_iters:
             for k in iters:
                 if rng.random() < 0.7:
@@ -266,14 +273,16 @@ def gen_case(rng, tier, i):
                 qs = []
                 for _ in range(rng.randint(0, 4)):
                     c = 50 + i_ if rng.random() < 0.7 else 51 - i_
-                    qs.append(pick() + [c, rng.choice(["obj", "twin", "twin", "ident"])])
+                    qs.append(pick() + [c, rng.choice(["obj", "twin", "twin", "xtwin", "ident"])])
                 ops.append(["saddN", i_, via, qs])
             elif r < 0.93:
-                kind = rng.choice(["list", "gen", "ext", "store"])
+                kind = rng.choice(["list", "gen", "ext", "extsame", "extsame", "store"])
                 src = ["store", 1 - i_] if kind == "store" else [kind, tlist()]
                 ops.append([rng.choice(["siadd", "sisub"]), i_, via, src])
-            else:
+            elif r < 0.965:
                 ops.append(["sbin", rng.choice(["add", "sub", "mul", "xor"]), i_, rng.randint(0, 1)])
+            else:
+                ops.append(["sbinx", rng.choice(["add", "sub", "mul", "xor"]), i_, tlist(), rng.choice("LR")])
     return {"store": store, "pool": pool, "ops": ops}
 
 
@@ -346,6 +355,10 @@ def _mut_line(op):
         return f"{k} {op[1]} " + " ".join(f"{t[0]} {t[1]} {t[2]}" for t in src[1])
     if k == "bin":
         return f"bin {op[1]} {op[2]} {op[4]}"
+    if k == "binx":
+        return f"binl {op[1]} {op[2]} {op[5]} " + " ".join(f"{t[0]} {t[1]} {t[2]}" for t in op[4])
+    if k == "sbinx":
+        return f"sbinl {op[1]} {op[2]} {op[4]} " + " ".join(f"{t[0]} {t[1]} {t[2]}" for t in op[3])
     if k == "st_add":
         return f"madd {op[1]} {op[3]} {op[4]} {op[5]}"
     if k == "st_remove":
@@ -406,7 +419,8 @@ class _World:
         self.kind = store
         if store == "mem":
             self.mem = Memory()
-            self.objs = {g: [Graph(self.mem, GIDS[g]), Graph(self.mem, _fresh_ident(g))] for g in (0, 1, 2)}
+            self.objs = {g: [Graph(self.mem, GIDS[g]), Graph(self.mem, _fresh_ident(g)), _same_id_graph(g, [])]
+                         for g in (0, 1, 2)}
             self.sets = {g: set() for g in (0, 1, 2)}
             self.keys = set()   # registered graphs (oracle for store.contexts())
         else:
@@ -431,6 +445,14 @@ def _ids(t):
     return (TERM_ID[t[0]], TERM_ID[t[1]], TERM_ID[t[2]])
 
 
+def _same_id_graph(gid, ts):
+    """a distinct graph on ANOTHER store (alternately Memory / SimpleMemory) that carries the same identifier"""
+    e = Graph(SimpleMemory() if len(ts) % 2 else Memory(), _fresh_ident(gid) if len(ts) % 3 else GIDS[gid])
+    for t in ts:
+        e.add(_tt(t))
+    return e
+
+
 def _ext_graph(ts):
     e = Graph(Memory(), URIRef("http://e/ext"))
     for t in ts:
@@ -438,8 +460,10 @@ def _ext_graph(ts):
     return e
 
 
-def _source(w, src):
+def _source(w, src, g=None):
     """the Python object handed to += / -= and the triples the statement's set semantics sees"""
+    if src[0] == "extsame":
+        return _same_id_graph(w.gid(g), src[1]), _src_triples(src)
     if src[0] == "list":
         return [_tt(t) for t in src[1]], _src_triples(src)
     if src[0] == "gen":
@@ -458,6 +482,8 @@ def _quad_ctx(w, g, via, c, kind):
     cg = c if w.kind == "mem" else c - 50
     if kind == "ident":
         return GIDS[c]
+    if kind == "xtwin":
+        return _same_id_graph(c, [])
     if cg == g:
         return w.objs[g][via if kind == "obj" else 1 - via]
     return w.objs[cg][0 if kind == "obj" else 1]
@@ -515,7 +541,7 @@ def _apply(w, op, stats):
             stats["quad_" + q[4]] = stats.get("quad_" + q[4], 0) + 1
     elif k in ("iadd", "siadd"):
         g, via, src = op[1], op[2], op[3]
-        obj, ts = _source(w, src)
+        obj, ts = _source(w, src, g)
         gg = w.objs[g][via]
         gg += obj
         w.sets[g] |= set(ts)
@@ -524,15 +550,22 @@ def _apply(w, op, stats):
         stats["src_" + src[0]] = stats.get("src_" + src[0], 0) + 1
     elif k in ("isub", "sisub"):
         g, via, src = op[1], op[2], op[3]
-        obj, ts = _source(w, src)
+        obj, ts = _source(w, src, g)
         gg = w.objs[g][via]
         gg -= obj
         w.sets[g] -= set(ts)
         stats["src_" + src[0]] = stats.get("src_" + src[0], 0) + 1
-    elif k in ("bin", "sbin"):
+    elif k in ("bin", "sbin", "binx", "sbinx"):
         if k == "bin":
             name, a, b = op[1], w.objs[op[2]][op[3]], w.objs[op[4]][op[5]]
             A, B = w.sets[op[2]], w.sets[op[4]]
+        elif k in ("binx", "sbinx"):
+            name, g = op[1], op[2]
+            ts, side = (op[4], op[5]) if k == "binx" else (op[3], op[4])
+            a, b = w.objs[g][op[3] if k == "binx" else 0], _same_id_graph(w.gid(g), ts)
+            A, B = w.sets[g], {tuple(t) for t in ts}
+            if side == "L":
+                a, b, A, B = b, a, B, A
         else:
             name, a, b = op[1], w.objs[op[2]][0], w.objs[op[3]][1]
             A, B = w.sets[op[2]], w.sets[op[3]]
@@ -691,7 +724,7 @@ def run_impl(case):
                 line = "raise:" + type(e).__name__
                 viol.append(f"raise: op {k} {op[:3]} raised {type(e).__name__}: {e}")
             obs.append(line)
-            adm_lines.append(_mut_line(op) if kind not in ("bin", "sbin") else "echo ok")
+            adm_lines.append(_mut_line(op) if kind not in ("bin", "sbin", "binx", "sbinx") else "echo ok")
             for ent in gens.values():
                 if ent[3] is not None:
                     ent[3].append(set(w.sets[ent[1]]))
@@ -720,7 +753,7 @@ def shrink(case):
         if op[0] in ("addN", "saddN") and op[3]:
             for j in range(len(op[3])):
                 yield {**case, "ops": ops[:i] + [op[:3] + [op[3][:j] + op[3][j + 1:]]] + ops[i + 1:]}
-        if op[0] in ("iadd", "isub", "siadd", "sisub") and op[3][0] in ("list", "gen", "ext") and op[3][1]:
+        if op[0] in ("iadd", "isub", "siadd", "sisub") and op[3][0] in ("list", "gen", "ext", "extsame") and op[3][1]:
             for j in range(len(op[3][1])):
                 yield {**case, "ops": ops[:i] + [op[:3] + [[op[3][0], op[3][1][:j] + op[3][1][j + 1:]]]] + ops[i + 1:]}
         if op[0] == "istep" and op[2] > 1:
